@@ -242,7 +242,12 @@ def evaluate(case, obs):
                 if re_ is None or re_["t"] - rb["t"] < sess:
                     continue
                 hb = [a for a in c.arrivals if a.client_id == tag and a.api == "heartbeat" and rb["t"] <= a.t_written <= re_["t"]]
-                if not hb:
+                # only a member that was heartbeating right before the callback (still in the group: it did not
+                # leave on its own, was not reset) has a session to keep alive
+                hbi = case["cfg"]["heartbeat_interval_ms"] / 1000.0
+                before = [a for a in c.arrivals if a.client_id == tag and a.api == "heartbeat" and a.reply and
+                          a.reply.get("error") in (0, 27) and rb["t"] - 2 * hbi - 0.1 <= a.t_written < rb["t"]]
+                if not hb and before:
                     out.fail("barrier", "no_heartbeat_during_revoke_callback", {"member": tag, "from": rb["t"], "to": re_["t"],
                                                                                 "session_timeout": sess})
     # ---- revoked_silent / no_stale_data
